@@ -111,8 +111,11 @@ class ChartGen:
             opts.append("active('%s')" % r.choice(self.names))
         return r.choice(opts)
 
-    def cond_code(self, post):
+    def cond_code(self, post, allow_time=True):
         r, k = self.r, self.k
+        if allow_time and getattr(k, 'time_conds', 0) and r.random() < k.time_conds:
+            # a bare time predicate (C13): about the state itself / the source of the transition
+            return r.choice(['after(%d)', 'idle(%d)']) % r.randint(0, 3)
         c = r.random()
         if k.cflags and c < 0.35:
             return 'c%d' % r.randrange(k.cflags)
@@ -134,8 +137,10 @@ class ChartGen:
         r, k = self.r, self.k
         if r.random() >= k.contracts:
             return
+        is_state = not isinstance(obj, Transition)
         for _ in range(r.randint(0, 2)):
-            obj.preconditions.append(self.cond_code(False))
+            # (no time predicate before a state is entered: it has no entry time yet)
+            obj.preconditions.append(self.cond_code(False, allow_time=not is_state))
         for _ in range(r.randint(0, 2)):
             obj.postconditions.append(self.cond_code(True))
         for _ in range(r.randint(0, 2)):
@@ -175,14 +180,21 @@ class ChartGen:
                 ch = [mk(name, allowed_ch, depth + 1) for _ in range(r.randint(1, 3))]
                 st.initial = r.choice(ch)
                 if r.random() < k.p_history:
-                    h = self.fresh()
-                    self.kinds[h] = r.choice(['shallow', 'deep'])
-                    cls = ShallowHistoryState if self.kinds[h] == 'shallow' else DeepHistoryState
-                    hs = cls(h, memory=r.choice(ch), on_entry=self.action_code(False),
-                             on_exit=self.action_code(False))
-                    sc.add_state(hs, name)
-                    if r.random() < 0.2:
-                        st.initial = h
+                    # one history state, sometimes two (a shallow and a deep one side by side)
+                    kinds = [r.choice(['shallow', 'deep'])]
+                    if r.random() < 0.3:
+                        kinds.append('deep' if kinds[0] == 'shallow' else 'shallow')
+                        if r.random() < 0.5:
+                            kinds.reverse()
+                    for hk in kinds:
+                        h = self.fresh()
+                        self.kinds[h] = hk
+                        cls = ShallowHistoryState if hk == 'shallow' else DeepHistoryState
+                        hs = cls(h, memory=r.choice(ch), on_entry=self.action_code(False),
+                                 on_exit=self.action_code(False))
+                        sc.add_state(hs, name)
+                        if r.random() < 0.2:
+                            st.initial = h
             elif kind == 'orthogonal':
                 for _ in range(r.randint(2, 3)):
                     mk(name, ['basic', 'compound', 'compound', 'orthogonal'], depth + 1)
